@@ -126,8 +126,9 @@ PROPS = {
     },
     "C14": {
         "level": "exploration",
-        "steps": [("hv", "C14", {"_scale": 6.0}), ("hv", "wasmignore", {}), ("py", "c14ls", "run")],
-        "rule": "documents built from a pool of flagged clauses with twins (same flagged word, different neighbours), plain and Markdown; random subsets ignored through IgnoredLints; "
+        "steps": [("hv", "C14", {"_scale": 6.0}), ("hv", "wasmignore", {}), ("py", "c14ls", "run"), ("py", "c14proc", "run")],
+        "rule": "across processes: one process lints 2000 texts, ignores every lint of every second one and exports the list; a fresh process imports it and lints the same texts (every ignored lint hidden); "
+                "documents built from a pool of flagged clauses with twins (same flagged word, different neighbours), plain and Markdown; random subsets ignored through IgnoredLints; "
                 "checks: ignored lint gone, every lint observably different from all ignored ones survives, export/import equivalence, and edits >= 8 characters away (prepend / append "
                 "paragraph, quoted paragraph, inserted words) keep it ignored; harper-ls histories: a diagnostic is ignored through the HarperIgnoreLint command the server itself offers "
                 "(gone, every diagnostic with another message or flagged text still published, nothing new), then clean paragraphs (or, in source files, code with a new identifier) are appended / prepended; harper_wasm::Linter::ignore_lint with imported user words next to the flagged text, "
